@@ -55,7 +55,7 @@ def run(tier, seed):
     v.add_traces(len(traces))
     for t in traces:
         v.add_case("pair " + t["pair"])
-        v.add_eval(t["NX"] * t["NY"] * (len(t["scnames"]) + 6))
+        v.add_eval(t["NX"] * t["NY"] * (len(t.get("scnames", ())) + 6))
         for cl, loc in sorted(failed.get(t["id"], ())):
             if gridprops.clause_prop(cl) != "C16":
                 continue
@@ -64,7 +64,9 @@ def run(tier, seed):
     v.note("pairs", {"validated": [t["pair"] for t in traces], "clauses_failed": sorted({c for s in failed.values() for c, _ in s if gridprops.clause_prop(c) == "C16"})})
     if len(traces) < 4:
         v.fail_machinery("coverage floor: only %d pairs generated" % len(traces))
-    v.sample({"engine": "C->S grid pair", "pair": traces[0]["pair"], "intsA": traces[0]["ints"], "intsB": traces[0]["B"]["ints"]})
+    full = [t for t in traces if "B" in t]      # (a trace whose file lacks a variable carries `missing' instead)
+    if full:
+        v.sample({"engine": "C->S grid pair", "pair": full[0]["pair"], "intsA": full[0]["ints"], "intsB": full[0]["B"]["ints"]})
     clean = [t for t in traces if t["kind"] == "mirror" and not any(gridprops.clause_prop(c) == "C16" and c != "PairPositionsGuardCells" for c, _ in failed.get(t["id"], ()))]
     if clean:
         a = copy.deepcopy(clean[0]); a["id"] = 9001
